@@ -613,13 +613,22 @@ class TenSym(PySym):
                 if isinstance(p_, ast.Constant):
                     parts.append(p_.value)
                 else:
-                    parts.append(FVal(self.ex(p_.value), src(p_.format_spec) if p_.format_spec is not None else "", p_.conversion))
+                    spec_ = ""
+                    if p_.format_spec is not None:
+                        # the format spec as plain text when it is one (`8.3f`, or `{w}.{p}f` with concrete w, p); else its source
+                        sv_ = self.ex(p_.format_spec)
+                        pieces_ = [q_ if isinstance(q_, str) else (str(self.pyval(q_.value)) if isinstance(self.pyval(q_.value), (int, str)) and not isinstance(self.pyval(q_.value), bool) and not q_.spec else None)
+                                   for q_ in (sv_.parts if isinstance(sv_, FStr) else [sv_])]
+                        spec_ = "".join(pieces_) if all(isinstance(q_, str) for q_ in pieces_) else src(p_.format_spec)
+                    parts.append(FVal(self.ex(p_.value), spec_, p_.conversion))
             return FStr(parts)
         if isinstance(n, ast.Constant):
             if n.value is None or isinstance(n.value, (str, bool)) or n.value is Ellipsis:
                 return n.value
             if isinstance(n.value, int):
                 return n.value
+            if isinstance(n.value, bytes):
+                return n.value.decode("latin-1")        # text and its encoded form are not told apart
             return Rat(Poly.const(Fraction(str(n.value))))
         if isinstance(n, ast.Name):
             if n.id in self.env:
@@ -865,6 +874,40 @@ class TenSym(PySym):
             return v.const_value() != 0
         raise Unsupported("truth value of a symbolic quantity")
 
+    def percent_format(self, tmpl, b):
+        """`"..%8.3f.." % values`: the template's literal pieces and the values formatted into it (spec: the conversion without the %)"""
+        vals = list(b) if isinstance(b, tuple) else [b]
+        conc = [self.pyval(v_) for v_ in vals]
+        if all(isinstance(v_, (int, str)) and not isinstance(v_, bool) for v_ in conc):
+            try:
+                return tmpl % tuple(conc)       # nothing symbolic: the text itself
+            except (TypeError, ValueError) as e_:
+                raise Raised("the analysed path raises: %s" % e_, type(e_).__name__)
+        parts, pos, k = [], 0, 0
+        for m_ in re.finditer(r"%(?:\((\w+)\))?([-+ #0]*\d*(?:\.\d+)?[diouxXeEfFgGcrsa%])", tmpl):
+            if m_.start() > pos:
+                parts.append(tmpl[pos:m_.start()])
+            pos = m_.end()
+            if m_.group(2) == "%":
+                parts.append("%")
+                continue
+            if m_.group(1) is not None:
+                if not isinstance(b, dict) or m_.group(1) not in b:
+                    raise Unsupported("%%(%s) format without a mapping" % m_.group(1))
+                parts.append(FVal(b[m_.group(1)], m_.group(2)))
+                continue
+            if k >= len(vals):
+                raise Raised("the analysed path raises: TypeError (not enough arguments for format string)", "TypeError('format')")
+            parts.append(FVal(vals[k], m_.group(2)))
+            k += 1
+        if pos < len(tmpl):
+            parts.append(tmpl[pos:])
+        if k != len(vals) and not isinstance(b, dict):
+            raise Raised("the analysed path raises: TypeError (not all arguments converted during string formatting)", "TypeError('format')")
+        if not any(isinstance(p_, FVal) for p_ in parts):
+            return "".join(parts)
+        return FStr(parts)
+
     def binop(self, op, a, b, n=None):
         if isinstance(a, int) and isinstance(b, int) and not isinstance(a, bool) and not isinstance(b, bool):
             if isinstance(op, ast.Add):
@@ -881,12 +924,22 @@ class TenSym(PySym):
                 return a ** b
         if isinstance(op, ast.Add) and isinstance(a, (list, tuple)) and isinstance(b, (list, tuple)) and type(a) is type(b):
             return a + b
+        if isinstance(op, ast.Mult) and (isinstance(a, str) or isinstance(b, str)):
+            s_, k_ = (a, self.pyval(b)) if isinstance(a, str) else (b, self.pyval(a))
+            if isinstance(k_, int) and not isinstance(k_, bool):
+                return s_ * k_
         if isinstance(op, ast.Mult) and isinstance(a, (list, tuple)) and isinstance(b, int) and not isinstance(b, bool):
             return a * b
         if isinstance(op, ast.Mult) and isinstance(b, (list, tuple)) and isinstance(a, int) and not isinstance(a, bool):
             return b * a
         if isinstance(op, ast.MatMult):
             return self.dot(a, b)
+        if isinstance(op, ast.Mod) and isinstance(a, str):
+            return self.percent_format(a, b)
+        if isinstance(op, ast.Add) and isinstance(a, (str, FStr)) and isinstance(b, (str, FStr)):
+            if isinstance(a, str) and isinstance(b, str):
+                return a + b
+            return FStr((a.parts if isinstance(a, FStr) else [a]) + (b.parts if isinstance(b, FStr) else [b]))
         a, b = self.lift(a), self.lift(b)
         if isinstance(a, (list, tuple)):
             a = self.to_ten(a)
@@ -1070,6 +1123,17 @@ class TenSym(PySym):
                     return dict(recv)
                 args_ = [self.ex(a) for a in n.args]
                 return recv.get(self.pyval(args_[0]), args_[1] if len(args_) > 1 else None)
+            if isinstance(recv, (str, FStr)) and m in ("encode", "decode"):
+                return recv         # text and its encoded form are not told apart
+            if isinstance(recv, str) and m == "join":
+                items_ = self.iterate(self.ex(n.args[0]))
+                if any(isinstance(x_, FStr) for x_ in items_) and all(isinstance(x_, (str, FStr)) for x_ in items_):
+                    parts_ = []
+                    for k_, x_ in enumerate(items_):
+                        if k_ and recv:
+                            parts_.append(recv)
+                        parts_.extend(x_.parts if isinstance(x_, FStr) else [x_])
+                    return FStr(parts_)
             if isinstance(recv, str) and m in ("lower", "upper", "strip", "lstrip", "rstrip", "startswith", "endswith", "split", "join"):
                 args_ = [self.pyval(self.ex(a)) for a in n.args]
                 if all(isinstance(a, (str, int, tuple, list)) for a in args_) and not any(isinstance(x, (Rat, Ten, Obj)) for a in args_ if isinstance(a, (list, tuple)) for x in a):
@@ -1248,6 +1312,19 @@ class TenSym(PySym):
         if cn in ("np.sqrt", "np.cos", "np.sin", "np.arccos", "np.exp", "np.log", "np.abs", "np.cbrt", "np.tan", "np.arcsin"):
             f = {"arccos": "acos", "arcsin": "asin"}.get(last, last)
             return self.into_out(n, 1, self.elementwise(lambda x: self.fn(f, x), A(0)))
+        if cn in ("np.allclose",):
+            ta, tb = self.to_ten(A(0)), self.to_ten(A(1))
+            rtol = self.kw(n, "rtol", 2, None)
+            atol = self.kw(n, "atol", 3, None)
+            rt = Fraction(1, 100000) if rtol is None else self.lift(rtol).const_value()
+            at = Fraction(1, 100000000) if atol is None else self.lift(atol).const_value()
+            diffs = self.elementwise(lambda x, y: x - y, ta, tb)
+            refs = self.elementwise(lambda x, y: y, ta, tb)
+            dl = self.to_ten(diffs).data
+            rl = self.to_ten(refs).data
+            if rt is None or at is None or any(d_.const_value() is None or r_.const_value() is None for d_, r_ in zip(dl, rl)):
+                raise Unsupported("np.allclose of symbolic values")
+            return all(abs(d_.const_value()) <= at + rt * abs(r_.const_value()) for d_, r_ in zip(dl, rl))
         if cn in ("np.arctan2",):
             return self.into_out(n, 2, self.elementwise(lambda y, x: self.fn("arctan2", y, x), A(0), A(1)))
         if cn in ("np.square",):
@@ -1399,6 +1476,12 @@ class TenSym(PySym):
                 return len(v)
             if isinstance(v, Obj) and hasattr(v, "n_frames"):
                 return v.n_frames
+            if isinstance(v, FStr):
+                # the length of formatted text: known only when every value is itself text; else a symbol (a test on it is put to the rule's `assume`)
+                if all(isinstance(p_, str) or (isinstance(p_.value, str) and not p_.spec) for p_ in v.parts):
+                    return sum(len(p_) if isinstance(p_, str) else len(p_.value) for p_ in v.parts)
+                _UNDEF[0] += 1
+                return Rat(Poly.var("len(text#%d)" % _UNDEF[0]))
             raise Unsupported("len of %s" % type(v).__name__)
         if cn in ("range",):
             return list(range(*[self.concrete(self.ex(a)) for a in n.args]))
@@ -1855,6 +1938,14 @@ class TenSym(PySym):
                 self.ex(s.value)
                 return
             if isinstance(s.value, ast.Call) and (call_name(s.value) or "").split(".")[-1] in ("warn", "write", "print"):
+                if isinstance(s.value.func, ast.Attribute) and s.value.func.attr == "write":
+                    # a file handle the rule models (a recorder of what is written): the call is made; any other .write() is an effect outside the analysis
+                    try:
+                        recv_ = self.ex(s.value.func.value)
+                    except Unsupported:
+                        recv_ = None
+                    if isinstance(recv_, Obj) and callable(getattr(recv_, "write", None)):
+                        self.ex(s.value)
                 return
             if isinstance(s.value, ast.Call) and (call_name(s.value) or "") in ("np.clip",) and any(k.arg == "out" for k in s.value.keywords):
                 self.ex(s.value)
